@@ -1,16 +1,35 @@
 /-
   PCV.Model.DrvC19 — driver requests of property C19 (op names start with "c19.").
+    c19.dimensions N t [c] -> ok n=.. m=.. cost=..   (`computeDimensions`, `proofCost N t c n`; c = 2 by default)
+    c19.cost       N t c np -> ok cost=..             (`proofCost N t c np` for an alternative row count)
 -/
 import PCV.Model.Wire
 import PCV.Model.DrvUtil
+import PCV.Model.Dimensions
 namespace PCV
 namespace DrvC19
+open Driver LinCode
+
+def handle' (r : Req) : R String := do
+  match r.op with
+  | "c19.dimensions" =>
+    let N ← asNat (← need r "N"); let t ← asNat (← need r "t")
+    let c ← match r.get? "c" with | some v => asNat v | none => pure 2
+    if t = 0 then pure (errReply .abort)
+    else
+      let d := computeDimensions N t
+      pure <| okReply [("n", .n d.1), ("m", .n d.2), ("cost", .n (proofCost N t c d.1))]
+  | "c19.cost" =>
+    let N ← asNat (← need r "N"); let t ← asNat (← need r "t")
+    let c ← asNat (← need r "c"); let np ← asNat (← need r "np")
+    if np = 0 then pure (errReply .abort)
+    else pure <| okReply [("cost", .n (proofCost N t c np))]
+  | _ => .error "unknown-op"
 
 /-- `none` = not an op of this module -/
 def handle (p : Nat) (r : Req) : Option (Except String String) :=
   let _ := p
-  let _ := r
-  none
+  if r.op = "c19.dimensions" ∨ r.op = "c19.cost" then some (handle' r) else none
 
 end DrvC19
 end PCV
